@@ -226,35 +226,67 @@ Qed.
 Lemma In_firstn {A} (x : A) l : forall n, In x (firstn n l) -> In x l.
 Proof. induction l as [|y l IH]; intros [|n]; cbn; auto; try tauto. intros [H|H]; eauto. Qed.
 
-(* FULL STATEMENT (fails, see pqmr_seg_answer_refuted): for every byte prefix of the writer's appends and every block b of
-   the segment, seg_answer ... b = truth b.  Proved under the exact guard: the block is reported by the file, or the
-   number of blocks taken from the file differs from the NumBlocks recorded for the segment. *)
-Theorem pqmr_seg_answer_guarded (bl : list (N * bitset)) (truth : N -> list N) (k : nat) (recorded nblocks : N) :
-  wf_blocks bl = true ->
-  (forall b bs, In (b, bs) bl -> set_bits bs = truth b) ->
-  forall b, answer_guard (read_pqmr (firstn k (file_of bl))) recorded nblocks b = true ->
-            seg_answer (read_pqmr (firstn k (file_of bl))) recorded nblocks truth b = truth b.
+(* a block of the segment that the file does not report keeps the count of blocks taken from the file below the
+   number of blocks of the segment *)
+Lemma lookup_last_None b l : lookup_last b l = None -> ~ In b (map fst l).
 Proof.
-  intros Hwf Ht b. rewrite pqmr_crash_prefix_exact by exact Hwf. unfold seg_answer, answer_guard.
-  destruct (lookup_last b (firstn (complete k bl) bl)) as [bs|] eqn:E.
-  - intros _. apply lookup_last_In in E. apply In_firstn in E. apply Ht. exact E.
-  - intros G. apply negb_true_iff in G. rewrite G. reflexivity.
+  induction l as [|[b' bs'] r IH]; intros H; [intros []|]. cbn [lookup_last] in H.
+  destruct (lookup_last b r) as [x|]; [discriminate|].
+  destruct (N.eqb_spec b' b) as [E|E]; [discriminate|].
+  cbn [map fst]. intros [H1|H1]; [congruence|]. apply IH; auto.
 Qed.
 
-(* Two flushes of one segment, records 0 resp. 1 match.  The crash comes after the second flush's .sfm rename and before
-   its pqmr record is complete: the file holds block 0's record (20 bytes), the running .sfm says NumBlocks = 1 (the
-   index of the last flushed block), the segment has 2 searchable blocks.  One block is taken from the file, 1 = 1,
-   the raw search is skipped: block 1 is not searched although record 1 matches. *)
-Theorem pqmr_seg_answer_refuted :
+Lemma below_length (l : list N) (n : nat) :
+  NoDup l -> (forall x, In x l -> x < N.of_nat n) -> (length l <= n)%nat.
+Proof.
+  intros ND Hlt.
+  assert (I : incl l (map N.of_nat (seq 0 n))).
+  { intros x Hx. specialize (Hlt x Hx). apply in_map_iff. exists (N.to_nat x). split; [apply N2Nat.id|].
+    apply in_seq. lia. }
+  pose proof (NoDup_incl_length ND I) as L. rewrite map_length, seq_length in L. exact L.
+Qed.
+
+Lemma covered_lt l nblocks b : b < nblocks -> ~ In b (map fst l) -> covered l nblocks < nblocks.
+Proof.
+  intros Hb Hn. unfold covered, keys_of.
+  set (ks := filter (fun x => x <? nblocks) (nodup N.eq_dec (map fst l))).
+  assert (ND : NoDup (b :: ks)).
+  { constructor.
+    - unfold ks. intros H. apply filter_In in H as [H _]. apply nodup_In in H. contradiction.
+    - unfold ks. apply NoDup_filter. apply NoDup_nodup. }
+  assert (L : (length (b :: ks) <= N.to_nat nblocks)%nat).
+  { apply below_length; [exact ND|]. rewrite N2Nat.id. intros x [<-|Hx]; [exact Hb|].
+    unfold ks in Hx. apply filter_In in Hx as [_ Hx]. apply N.ltb_lt. exact Hx. }
+  cbn [length] in L. lia.
+Qed.
+
+(* MAIN for the query: for every byte prefix of the writer's appends and every block b of the segment, the persistent
+   query returns the records of b that match (stored bits if the file reports b, raw search otherwise) *)
+Theorem pqmr_seg_answer_after_crash (bl : list (N * bitset)) (truth : N -> list N) (k : nat) (nblocks : N) :
+  wf_blocks bl = true ->
+  (forall b bs, In (b, bs) bl -> set_bits bs = truth b) ->
+  forall b, b < nblocks -> seg_answer (read_pqmr (firstn k (file_of bl))) nblocks truth b = truth b.
+Proof.
+  intros Hwf Ht b Hb. rewrite pqmr_crash_prefix_exact by exact Hwf. unfold seg_answer, seg_answer_by.
+  destruct (lookup_last b (firstn (complete k bl) bl)) as [bs|] eqn:E.
+  - apply lookup_last_In in E. apply In_firstn in E. apply Ht. exact E.
+  - apply lookup_last_None in E. pose proof (covered_lt _ nblocks b Hb E) as L.
+    replace (covered (firstn (complete k bl) bl) nblocks =? nblocks) with false by (symmetry; apply N.eqb_neq; lia).
+    reflexivity.
+Qed.
+
+(* The rule before the fix (count compared with SegMeta.NumBlocks).  Two flushes of one segment, records 0 resp. 1
+   match.  The crash comes after the second flush's .sfm rename and before its pqmr record is complete: the file holds
+   block 0's record (20 bytes), the running .sfm says NumBlocks = 1 (the index of the last flushed block), the segment
+   has 2 searchable blocks.  One block is taken from the file, 1 = 1, the raw search is skipped: block 1 is not
+   searched although record 1 matches.  The code's rule answers it. *)
+Theorem pqmr_numblocks_rule_refuted :
   let bl := [(0, (1, [1])); (1, (2, [2]))] in
   let truth := fun b : N => if b =? 0 then [0] else [1] in
   wf_blocks bl = true /\
   (forall b bs, In (b, bs) bl -> set_bits bs = truth b) /\
-  seg_answer (read_pqmr (firstn 20 (file_of bl))) 1 2 truth 1 = [] /\ truth 1 = [1] /\
-  (* non-vacuity of the guard: once the record is complete the block is answered *)
-  answer_guard (read_pqmr (file_of bl)) 1 2 1 = true /\
-  (* and with the block COUNT in the .sfm the torn state would be answered too *)
-  answer_guard (read_pqmr (firstn 20 (file_of bl))) 2 2 1 = true.
+  seg_answer_numblocks 1 (read_pqmr (firstn 20 (file_of bl))) 2 truth 1 = [] /\
+  seg_answer (read_pqmr (firstn 20 (file_of bl))) 2 truth 1 = [1] /\ truth 1 = [1].
 Proof.
   cbv zeta. split; [reflexivity|]. split.
   - intros b bs [H|[H|[]]]; injection H as <- <-; reflexivity.
